@@ -47,3 +47,46 @@ Theorem C07_terminates : forall f F calls, wf_forest f = true -> trav_fuel f <= 
   S (total_nodes f) <= calls -> drain calls F f (new_iter f) = iterate f.
 Proof. exact drain_fuel_calls_irrelevant. Qed.
 Print Assumptions C07_terminates.
+
+(* ---- the dynamic half: a resize migrates bins while an iterator is live (Model/TravDyn.v,
+   Proofs/TravDynProofs.v). `migrate hi f j i` is what `transfer` does to bin i of table j: its nodes
+   are split by `hi` into bins i and i + n of table j+1 and the bin becomes a forwarding marker
+   (up to order: the code reverses part of a list and may build tree bins, hence Permutation).
+   `drain_dyn` interleaves calls of next() with guarded migration steps under ANY schedule. ---- *)
+From Flurry Require Import Model.TravDyn Proofs.TravDynProofs.
+From Coq Require Import Permutation.
+
+Theorem C07_migration_keeps_forest : forall hi steps f, wf_forest f = true ->
+  wf_forest (migrates hi steps f) = true /\ Permutation (contents (migrates hi steps f)) (contents f).
+Proof. intros hi steps f H. split; [exact (migrates_wf hi steps f H) | exact (migrates_contents_perm hi steps f H)]. Qed.
+Print Assumptions C07_migration_keeps_forest.
+
+(* an iterator created after any number of migration steps yields exactly the entries *)
+Theorem C07_iterate_after_migrations : forall hi steps f, wf_forest f = true ->
+  Permutation (iterate (migrates hi steps f)) (iterate f).
+Proof. exact migrates_iterate_perm. Qed.
+Print Assumptions C07_iterate_after_migrations.
+
+(* a LIVE iterator, any schedule of next() calls and migrations, any per-call fuel: no key twice,
+   nothing but entries of the map *)
+Theorem C07_live_no_duplicates : forall hi sched F f, wf_forest f = true ->
+  NoDup (map nk (contents f)) -> NoDup (map nk (drain_dyn hi sched F f (new_iter f))).
+Proof. exact drain_dyn_no_duplicates. Qed.
+Print Assumptions C07_live_no_duplicates.
+
+Theorem C07_live_yields_only_contents : forall hi sched F f x, wf_forest f = true ->
+  In x (drain_dyn hi sched F f (new_iter f)) -> In x (contents f).
+Proof. exact drain_dyn_yields_contents. Qed.
+Print Assumptions C07_live_yields_only_contents.
+
+(* ... and when the run ends with the iterator exhausted, every entry was yielded. (That a `None`
+   answer with fuel trav_fuel f always means exhausted under interleaved migration is tested
+   exhaustively on small forests in Proofs/TravDynProofs.v - dyn_tested_A/B/C - not proved.) *)
+Theorem C07_live_complete_partial : forall hi sched F f, wf_forest f = true ->
+  exhausted (snd (snd (drain_dyn_end hi sched F f (new_iter f)))) ->
+  Permutation (drain_dyn hi sched F f (new_iter f)) (contents f).
+Proof. exact drain_dyn_complete. Qed.
+Print Assumptions C07_live_complete_partial.
+
+(* non-vacuity: 2 bins migrated to 4 and then 8 while the iterator runs *)
+Check dyn_fA_run.
